@@ -346,6 +346,72 @@ fn system_basin(rng: &mut StdRng, cx: bool, n: usize) -> (Value, Vec<Cmplx>, f64
     (json!({"fam": if sin { "sys_sin" } else { "sys_sq" }, "a": jcvec(&a), "b": jcvec(&b), "k": jcvec(&k)}), root, rad)
 }
 
+// ------------------------------------------------------------------ special values in roots and guesses
+/// -1, 0, -0, 1, +-2^k: values at which a "scaled" step, a sign test or a relative quantity degenerates
+const SPECIALS: [f64; 10] = [-1.0, 0.0, -0.0, 1.0, 0.5, -0.5, 2.0, -2.0, 0.25, -0.25];
+fn poly_rho(s: Cmplx, roots: &[Cmplx], t: usize) -> f64 {
+    let deg = roots.len(); let rho0: f64 = 0.25;
+    let mut d1 = s.abs(); for k in 0..deg { if k != t { d1 *= (roots[t] - roots[k]).abs(); } }
+    let mut m2 = 0.0; for i in 0..deg { for j in 0..deg { if i != j { let mut p = s.abs(); for k in 0..deg { if k != i && k != j { p *= (roots[t] - roots[k]).abs() + rho0; } } m2 += p; } } }
+    if m2 > 0.0 { rho0.min(d1 / (3.0 * m2)) } else { rho0 }
+}
+/// scalar family (polynomial in product form, or e^z - k) whose root is `v + off` with |off| <= 0.9 rho when `near` (so that v itself is a
+/// legal guess), or exactly `v` otherwise; returns (family, root, rho)
+fn scalar_at(rng: &mut StdRng, cx: bool, v: Cmplx, near: bool) -> (Value, Cmplx, f64) {
+    let dir = unit_dir(rng, cx);
+    if rng.gen_bool(0.3) && v.abs() <= 2.0 {
+        let w = if near { v + dir * unif(rng, 0.02, 0.2) } else { v };
+        return (json!({"fam": "exp", "k": jcvec(&[cexp(w)])}), w, 0.25);
+    }
+    let deg = rng.gen_range(1..=4usize);
+    let mut roots: Vec<Cmplx> = vec![v];
+    // bounded search: the greedy placement can block the whole grid (e.g. 0, -3, 3), then the degree stays lower
+    let mut tries = 0; while roots.len() < deg && tries < 200 { tries += 1; let g = c(rng.gen_range(-4..=4) as f64, if cx { rng.gen_range(-3..=3) as f64 } else { 0.0 }); if roots.iter().all(|r| (*r - g).abs() >= 1.2) { roots.push(g); } }
+    let s = unit_dir(rng, cx) * unif(rng, 0.5, 2.0);
+    if near { let mut off = 0.05; for _ in 0..8 { roots[0] = v + dir * off; let rho = poly_rho(s, &roots, 0); if off <= 0.9 * rho { break; } off = 0.5 * rho; } }
+    let rho = poly_rho(s, &roots, 0);
+    (json!({"fam": "poly", "s": jcvec(&[s]), "r": jcvec(&roots), "t": 0}), roots[0], rho)
+}
+/// move the root of a sys_sin / sys_sq family (the constant terms are recomputed; gap, Lipschitz constant and radius do not depend on the root
+/// as long as |root_j| stays within the family's range)
+fn retarget(k: &mut Value, n: usize, root: &[Cmplx]) {
+    let sin = gets(k, "fam") == "sys_sin"; let a = cvec_from(&k["a"]); let b = cvec_from(&k["b"]);
+    let g = |z: Cmplx| if sin { csin(z) } else { z * z };
+    let kk: Vec<Cmplx> = (0..n).map(|i| { let mut s = a[i] * root[i]; for j in 0..n { s = s + b[i * n + j] * g(root[j]); } c(-s.real, -s.imag) }).collect();
+    k["k"] = jcvec(&kk);
+}
+/// a basin case with special values: mode 0 root components special; 1 guess components special (root a little off); 2 guess = root exactly
+/// (special); 3 all components equal (root and guess)
+fn special_case(rng: &mut StdRng, v: &str, n: usize, mode: usize) -> Value {
+    let cx = matches!(v, "cx" | "cvec" | "cvecj"); let sys = !matches!(v, "f64" | "cx");
+    let sp = |rng: &mut StdRng, lim: f64| -> Cmplx { loop { let x = SPECIALS[rng.gen_range(0..SPECIALS.len())]; if x.abs() <= lim {
+        return c(x, if cx && rng.gen_bool(0.5) { let y = SPECIALS[rng.gen_range(0..SPECIALS.len())]; if (x * x + y * y).sqrt() <= lim { y } else { 0.0 } } else { 0.0 }); } } };
+    let (mut k, root, guess, rad);
+    if sys {
+        let (k0, _r0, rad0) = system_basin(rng, cx, n); k = k0; rad = rad0;
+        let lim = if gets(&k, "fam") == "sys_sin" { 2.0 } else { 1.0 };
+        let mut vals: Vec<Cmplx> = (0..n).map(|_| sp(rng, lim)).collect();
+        if mode == 3 { let v0 = vals[0]; for x in vals.iter_mut() { *x = v0; } }
+        // offsets point towards 0 (for |v| at the edge of the family's range) or anywhere (v = 0)
+        let offs: Vec<Cmplx> = vals.iter().map(|z| { let d = if z.abs() > 0.0 { c(-z.real / z.abs(), -z.imag / z.abs()) } else { unit_dir(rng, cx) }; d * (rad * unif(rng, 0.2, 0.9)) }).collect();
+        let off0 = offs[0];
+        root = match mode { 1 => vals.iter().zip(offs.iter()).map(|(z, d)| *z + *d).collect(), _ => vals.clone() };
+        guess = match mode { 0 => root.iter().map(|z| *z + unit_dir(rng, cx) * (rad * unif(rng, 0.0, 0.9))).collect::<Vec<_>>(),
+                             1 => vals.clone(), 2 => root.clone(), _ => root.iter().map(|z| *z + off0).collect() };
+        retarget(&mut k, n, &root);
+    } else {
+        let val = sp(rng, 4.0);
+        let (k0, r0, rho) = scalar_at(rng, cx, val, mode == 1); k = k0; rad = rho; root = vec![r0];
+        guess = match mode { 1 => vec![val], 2 => vec![r0], _ => vec![r0 + unit_dir(rng, cx) * (rho * unif(rng, 0.0, 0.9))] };
+    }
+    let limit = if rng.gen_bool(0.85) { rng.gen_range(NEED..=30) } else { rng.gen_range(1..NEED) };
+    let tol = if rng.gen_bool(0.6) { (10.0f64).powf(-unif(rng, 9.0, 12.0)) } else { pick_tol(rng) };
+    k["variant"] = json!(v); k["n"] = json!(n); k["tol"] = jhex(tol); k["delta"] = jhex(pick_delta(rng)); k["limit"] = json!(limit);
+    k["guess"] = jcvec(&guess); k["root"] = jcvec(&root); k["basin"] = json!(true); k["rad"] = jhex(rad); k["special"] = json!(mode);
+    k["expect"] = json!(if limit >= NEED { "ok" } else { "any" });
+    k
+}
+
 /// Systems whose Jacobians have exact structural zeros in a prescribed arrangement (the dense Gaussian elimination
 /// behind the system variants must eliminate PAST a zero multiplier / search pivots PAST a zero entry), with coupling
 /// close to the dominance limit: per row sup|g'| * sum_j |b_ij| = rho * |a_i|, rho in {0.95, 0.9, 0.8}, scaled so that the
@@ -416,6 +482,14 @@ pub fn gen(tier: &str, seed: u64, out: &mut Out) {
         if sys && n >= 2 && rng.gen_bool(0.25) { k["perm"] = json!(rand_perm(&mut rng, n)); }
         push(out, k);
     } }
+    // (a5) special values: roots and / or guesses with components exactly -1, 0, -0, 1, +-2^k, all equal, guess = root; every variant
+    for _ in 0..(if quick { 3 } else { 30 }) { for v in VARIANTS { for mode in 0..4usize {
+        let sys = !matches!(v, "f64" | "cx");
+        if !sys && mode == 3 { continue; }
+        let n = if sys { rng.gen_range(1..=4usize) } else { 1 };
+        let k = special_case(&mut rng, v, n, mode);
+        push(out, k);
+    } } }
     // (a2) systems with structural zeros in the Jacobian, every arrangement x n = 3..6 x the four system variants,
     //      coupling near the dominance limit; mostly with limits from NEED on, where success is required
     let reps = if quick { 2 } else { 8 };
